@@ -22,6 +22,9 @@
 //   E <text>                                    the dump is inconsistent (a live block of the harness in no enumerated segment ...)
 //   D <step>                                    end of the dump after call <step>
 //
+// Reproducibility: every decision of the harness comes from the seed; the allocator's own randomness (the arena at which an
+// abandoned-segment cursor starts: _mi_heap_random_next, seeded from OS entropy) and the addresses (ASLR) differ from run to run.
+//
 // Segments are enumerated from the allocator's own bookkeeping: every page queue of every heap of every live thread, the span
 // queues of the thread, the blocks_abandoned bitmaps of the arenas and the abandoned OS list.  Only changed segments are printed.
 #include REPO_STATIC
